@@ -123,9 +123,13 @@ def schedule_rules(R, lib):
                dict(name='backoff', sync=8, initial=1, timeout=500, steps=(700, 2500), start=100),
                dict(name='cap', sync=5, initial=3, timeout=300, steps=(400, 3100, 4700), start=40000),
                dict(name='wrap32', sync=8, initial=2, timeout=1000, steps=(500, 2000), start=(1 << 32) - 3000),
-               dict(name='long', sync=70, initial=70, timeout=2000, steps=(1000, 30000, 50000), start=70000)]
+               dict(name='long', sync=70, initial=70, timeout=2000, steps=(1000, 30000, 50000), start=70000),
+               # the reference clock answers with the epoch itself (0 is a reading like any other) and with a time before it
+               dict(name='zero', sync=8, initial=1, timeout=1000, steps=(600, 9000), start=5000, value=lambda t_: 0),
+               dict(name='negative', sync=8, initial=1, timeout=1000, steps=(600, 9000), start=5000, value=lambda t_: -86400 + t_ // 1000)]
     kinds = ('distinct', 'same', 'no-backup', 'absent')
-    depth = {'short': 9 if thorough else 7, 'backoff': 11 if thorough else 9, 'cap': 9 if thorough else 7, 'wrap32': 8 if thorough else 6, 'long': 8 if thorough else 6}
+    depth = {'short': 9 if thorough else 7, 'backoff': 11 if thorough else 9, 'cap': 9 if thorough else 7, 'wrap32': 8 if thorough else 6, 'long': 8 if thorough else 6,
+             'zero': 7 if thorough else 5, 'negative': 7 if thorough else 5}
     counts = {k: 0 for k in ('S1', 'S2', 'S3', 'S4', 'S5', 'S6', 'S7')}
     first = {}
 
@@ -184,7 +188,7 @@ def schedule_rules(R, lib):
                     for answer in ('none', 'valid', 'invalid'):
                         o = AObj(dict(obj.attrs), oid='clock', cls=SCL, ftypes=ftypes)
                         sp = dict(spec)
-                        state.update(m=t, events=[], answer=answer, asked=False, value=2000000 + t // 1000 + ((t // 1000) % 2))
+                        state.update(m=t, events=[], answer=answer, asked=False, value=cfg_['value'](t) if 'value' in cfg_ else 2000000 + t // 1000 + ((t // 1000) % 2))
                         try:
                             call(loop, o)
                         except TypeError as x_:
